@@ -84,6 +84,7 @@ mod verif_battery_c04_mac {
         // RFC 4231 test case 3: 20 x 0xaa key, 50 x 0xdd data
         assert_eq!(super::compute_signature(&"aa".repeat(20), &[0xddu8; 50]).unwrap(), "773ea91e36800e46854db8ebd09181a72959098b3ef8c122d9635514ced565fe");
     }
+
 }
 '''
 
@@ -108,6 +109,39 @@ def check_skip_sig_wrapper(rep, ctx):
         ok = ok and good
     rep.functions_encoded.append(w)
     rep.add(Query("HttpConnectionContext::should_skip_sig = hyper_client::should_skip_sig(own method, own url)", "holds" if ok and n else "violated", "%d paths" % n, 0, "mirsym", key="C04.skip-wrapper", reproduced=None))
+
+
+def check_canonical_order(rep, ctx):
+    """the order of the canonical string is the order of the KEYS (lower-cased header names; lower-cased parameter name + value): what is
+    sorted is the key set of the de-duplication map, and the lines are emitted by walking that sorted sequence. Sorting the finished
+    lines instead gives another order whenever one key is a prefix of another and the next character sorts below ':' / '='"""
+    from p_c08 import derives
+    for fn in ("headers_to_canonicalized_string", "get_path_and_canonicalized_parameters"):
+        try:
+            w = ctx.one("hyper_client::" + fn)
+        except Inconclusive as ex:
+            rep.add(Query("%s located" % fn, "inconclusive", str(ex), 0, "mirsym", key="C04.canonical-order:" + fn))
+            continue
+        eng = ctx.engine(loop_bound=1)
+        eng.auto_inline = ctx.new_function_auto()
+        n_sorted, bad = 0, []
+        for r in eng.explore(w):
+            ev = r.events
+            sorts = [e for e in ev if e.kind == "call" and re.search(r"Itertools>::sorted(_unstable)?$|::sort(_unstable)?$|::sorted_by(_key)?$|::sort_by(_key)?$|::sort_unstable_by(_key)?$", e.callee)]
+            pushes = [e for e in ev if e.kind == "call" and e.callee.endswith("push_str")]
+            if not sorts:
+                if pushes and any(not isinstance(origin(p_.rargs[1]), (StrV, ConstV)) for p_ in pushes):
+                    bad.append("a path emits lines without any sort")
+                continue
+            n_sorted += 1
+            for so in sorts:
+                src = so.rargs[0]
+                keys = [e for e in ev if e.kind == "call" and re.search(r"HashMap::(keys|into_keys)$|BTreeMap::(keys|into_keys)$", e.callee) and (e.ret is origin(src) or derives(src, e.ret, ev))]
+                if not keys:
+                    bad.append("what is sorted is not the key set of the map: %r" % (src,))
+        rep.functions_encoded.append(w)
+        rep.add(Query("%s: the canonical order is the sorted order of the map's keys (names), not of finished lines" % fn, "holds" if n_sorted and not bad else "violated", "; ".join(sorted(set(bad)))[:300], 0, "mirsym",
+                      key="C04.canonical-order:" + fn, reproduced=None))
 
 
 def check(rep, tier, seed):
@@ -233,6 +267,7 @@ def check(rep, tier, seed):
     rep.bounds["build_request"] = "header loop bound 2 (<=2 caller headers); %d paths" % len(rb)
     check_canonicalisers(rep, ctx, tier)
     check_mac_unit(rep, ctx)
+    check_canonical_order(rep, ctx)
     check_skip_sig_wrapper(rep, ctx)
     import p_c02
     p_c02.check_query_pairs(rep, ctx, "C04")          # both canonicalisers see the query through it
